@@ -43,7 +43,7 @@ Definition g_dec : sfun := {| sf_name := "f"; sf_kind := KGen; sf_sig := gsig;
   sf_body := gbody |}.
 Definition g_bare : sfun := {| sf_name := "f0"; sf_kind := KGen; sf_sig := gsig; sf_stack := []; sf_body := gbody |}.
 Definition outcomes_of (f : fid) : option (list outcome) :=
-  match run_scenario {| sc_funs := [g_dec; g_bare]; sc_driver := [AGenNew 0 f [VInt 1] []; ANext 0; ASend 0 (VInt 42); ANext 0] |} with
+  match run_scenario {| sc_funs := [g_dec; g_bare]; sc_dispatch := []; sc_driver := [AGenNew 0 f [VInt 1] []; ANext 0; ASend 0 (VInt 42); ANext 0] |} with
   | Done (inl l) _ => Some (map fst l) | _ => None end.
 Theorem C06_iter_protocol_refuted :
   outcomes_of "f0" = Some [ORet (VGen 0); OYield (VInt 1); OYield (VInt 42); OStop (VInt 9)] /\
